@@ -31,20 +31,20 @@ def c10_jobs(tier):
         # monitor 1 on G1-G5 inputs: 5 fill patterns x (12-18 coarsening/relaxation/solver/level/adapter cells + relaxation-only preconditioners)
         job('heapfill-plain', 'c10', 'plain', threads=1, shards=4 if q else 12, timeout=T, args=['--sub', 'heapfill']),
         # monitor 1 on the degenerate sweep as well (same engine, 5 fill patterns)
-        job('degenerate-heapfill-plain', 'c10', 'plain', threads=1, shards=6 if q else 12, timeout=T, args=['--sub', 'degenerate'] + (['--fills=00,ff,rnd'] if q else [])),
+        job('degenerate-heapfill-plain', 'c10', 'plain', threads=1, shards=8 if q else 14, timeout=T, args=['--sub', 'degenerate'] + (['--fills=00,ff,rnd'] if q else [])),
         # monitors 3 + 4: ASan + UBSan + LSan, live asserts, native allocator
-        job('degenerate-asan', 'c10n', 'asan', threads=1, shards=8 if q else 14, timeout=T, env=ASAN, args=['--sub', 'degenerate', '--fills=native']),
-        job('heapfill-asan', 'c10n', 'asan', threads=1, shards=2 if q else 6, timeout=T, env=ASAN, args=['--sub', 'heapfill', '--fills=native', '--inputs=%d' % (24 if q else 120)]),
+        job('degenerate-asan', 'c10n', 'asan', threads=1, shards=12 if q else 16, timeout=T, env=ASAN, args=['--sub', 'degenerate', '--fills=native']),
+        job('heapfill-asan', 'c10n', 'asan', threads=1, shards=3 if q else 8, timeout=T, env=ASAN, args=['--sub', 'heapfill', '--fills=native', '--inputs=%d' % (60 if q else 400)]),
         # monitor 2: memcheck on a reduced workload (in-process; errors whose stack passes through amgcl frames become failures)
         job('heapfill-vg', 'c10n', 'vg', threads=1, shards=4 if q else 8, valgrind=True, timeout=3600 if q else 7200,
-            args=['--sub', 'heapfill,degenerate', '--fills=native', '--fork=0', '--history=0', '--inputs=%d' % (6 if q else 24), '--nmax=%d' % (120 if q else 250), '--cells=12', '--solver_stride=9', '--rounds=1']),
+            args=['--sub', 'heapfill,degenerate', '--fills=native', '--fork=0', '--history=0', '--inputs=%d' % (12 if q else 48), '--nmax=%d' % (120 if q else 250), '--cells=12', '--solver_stride=%d' % (9 if q else 3), '--rounds=1']),
     ]
 
 PROPS['C10'] = dict(
     level='exploration', jobs=c10_jobs,
-    rule='heapfill: seeded G1 (2D/3D grid diffusion), G2 graph Laplacian, G3 convection-diffusion (symmetric and non-symmetric structure) and G5 Kronecker block inputs (200..1500 rows); per input 12-18 (coarsening, relaxation, solver, level setting, adapter) cells chosen so that all 36 coarsening x relaxation pairs are visited every three inputs, plus relaxation-only preconditioners; every run repeated from fresh objects under each fill pattern. degenerate: 14 G6 inputs (1x1, 2x2 identity, diagonal, disconnected blocks, rows with only positive off-diagonals, all-positive off-diagonals, smaller than coarse_enough, weak couplings that coarsen to nothing, isolated Dirichlet rows, unsorted rows, ...) x 4 coarsenings x 9 relaxations x 3 (quick) / 9 (thorough) of 9 solvers x 4 level settings (default coarse_enough > n, max_levels = 1, coarse_enough = 1 with and without direct_coarse) x 2 adapters (copying tuple, zero-copy with harness-owned arrays). One non-trivial sub-case per (input, configuration) run that was started; distinct = distinct (sub-check, descriptor) hash.',
-    exhaustive_note='degenerate: the full product G6 inputs x 4 coarsenings x 9 relaxations x 4 level settings x 2 adapters (x all 9 solvers in the thorough tier)',
-    min_nontrivial=dict(quick=8000, thorough=40000),
+    rule='heapfill: seeded G1 (2D/3D grid diffusion), G2 graph Laplacian, G3 convection-diffusion (symmetric and non-symmetric structure) and G5 Kronecker block inputs (200..1500 rows); per input 12-18 (coarsening, relaxation, solver, level setting, adapter) cells chosen so that all 36 coarsening x relaxation pairs are visited every three inputs, plus relaxation-only preconditioners; every run repeated from fresh objects under each fill pattern. degenerate: 14 G6 inputs (1x1, 2x2 identity, diagonal, disconnected blocks, rows with only positive off-diagonals, all-positive off-diagonals, smaller than coarse_enough, weak couplings that coarsen to nothing, isolated Dirichlet rows, unsorted rows, ...) x 4 coarsenings x 9 relaxations x 9 solvers x 4 level settings (default coarse_enough > n, max_levels = 1, coarse_enough = 1 with and without direct_coarse) x 2 adapters (copying tuple, zero-copy with harness-owned arrays). One non-trivial sub-case per (input, configuration) run that was started; distinct = distinct (sub-check, descriptor) hash.',
+    exhaustive_note='degenerate: the full product G6 inputs x 4 coarsenings x 9 relaxations x 4 level settings x 2 adapters x 9 solvers, 1 (quick) / 6 (thorough) seeded instances per family',
+    min_nontrivial=dict(quick=25000, thorough=150000),
     require_obs=dict(quick=['runs_completed', 'fill_pairs_compared', 'memcheck_processes'], thorough=['runs_completed', 'fill_pairs_compared', 'memcheck_processes']),
     assumptions=COMMON_ASSUME + [
         'prior heap contents are modelled by five fill patterns of fresh allocations (0x00, 0xFF, 0xAA, 0x55, xorshift bytes), overwritten freed blocks, M_PERTURB and a scribbled stack; an uninitialised read that influences neither control flow nor output under any of them is invisible',
